@@ -138,6 +138,8 @@ def make_case(g, rng, bad=False):
                         {"K": "{v}", "L": "~/a:~/b:c", "M": "100%"}]),
         second=second,
     )
+    # every fourth case: the executor defines an env as well; the suite's (possibly empty) map replaces it as a whole
+    case["lower_env"] = rng.choice([None, None, None, {"LOWER": "x", "A": "0"}])
     case["raw_values"] = dict(values)
     case["values"] = {k: (v if k in ("iterations", "warmup") else str(v)) for k, v in values.items()}
     return case
@@ -178,9 +180,11 @@ def raw_of(case):
             suite[name] = [raw_values[key]]
     if case.get("second") is not None:
         suite["variable_values"] = suite.get("variable_values", []) + [case["second"]]
-    if case["env"]:
-        suite["env"] = dict(case["env"])
+    if case["env"] or case.get("lower_env"):
+        suite["env"] = dict(case["env"])      # also an explicitly empty map: it clears what a less specific level defines
     ex = {"executable": case["exe"]}
+    if case.get("lower_env"):
+        ex["env"] = dict(case["lower_env"])   # replaced as a whole by the suite's env, never merged
     if case["path"] is not None:
         ex["path"] = case["path"]
     if case["args"] is not None:
@@ -421,11 +425,14 @@ def sessions(chk):
             suite = {"gauge_adapter": "RebenchLog", "command": "-i%(invocation)s 100%% %(variable)s w%(warmup)d %(benchmark)s %(invocation)s",
                      "invocations": N, "variable_values": [var] if var else [], "warmup": 1,
                      "benchmarks": ["B%d" % k for k in range(nb)]}
-            if env:
-                suite["env"] = dict(env)
+            lower = rng.choice([None, None, {"LOWER": "x", "A": "0"}])
+            if env or lower:
+                suite["env"] = dict(env)       # an explicitly empty map clears the executor's env
             if loc:
                 suite["location"] = loc
             ex = {"executable": "exe"}
+            if lower:
+                ex["env"] = dict(lower)
             if path:
                 ex["path"] = path
             raw = {"executors": {"E": ex}, "benchmark_suites": {"S": suite},
